@@ -1,7 +1,7 @@
 #!/bin/bash
 # rebase_seed.sh <seed-id>: re-create seeded/<id>/patch.diff against /repo HEAD using patch(1) with fuzz
 set -e
-W=/tmp/rebase-wt; rm -rf $W; git -C /repo worktree add --detach $W HEAD >/dev/null 2>&1
+W=/tmp/rebase-wt-$$; rm -rf $W; git -C /repo worktree add --detach $W HEAD >/dev/null 2>&1
 cd $W
 if patch -p1 --fuzz=3 --no-backup-if-mismatch < /verif/seeded/$1/patch.diff; then
   find . -name '*.orig' -delete; find . -name '*.rej' -delete
